@@ -118,6 +118,18 @@ M_Diamond == Prep([id |-> "diamond", root |-> "Something", enums |-> <<>>, class
         O(Id1("links", "links", "Links", "LINKS"), TList(TCls("Has_parts"))) >>) >>])
 WalkModels == FixedModels \o <<M_Diamond>>
 
+(* models that an intact front end refuses (C10 only judges them when the front end accepts them -- and then the SDK must be
+   importable and round-trip): a property whose name equals a reserved member name up to case (its JSON key is "modelType");
+   a property of a child that equals an inherited one up to case (same generated argument / attribute name) *)
+M_ReservedCase == Prep([id |-> "reserved_case", root |-> "Something", enums |-> <<>>, classes |-> <<
+    Cls(I_Something, FALSE, FALSE, <<>>, <<
+        P(Id("Model_type", <<"model", "type">>, <<"Model", "Type">>, <<"MODEL", "TYPE">>), TStr),
+        O(Id1("other", "other", "Other", "OTHER"), TInt) >>) >>])
+M_CaseCollision == Prep([id |-> "case_collision", root |-> "Something", enums |-> <<>>, classes |-> <<
+    Cls(Id1("Parent", "parent", "Parent", "PARENT"), TRUE, TRUE, <<>>, << P(Id1("URL", "url", "Url", "URL"), TStr) >>),
+    Cls(I_Something, FALSE, FALSE, <<"Parent">>, << O(Id1("url", "url", "Url", "URL"), TStr) >>) >>])
+DoubtfulModels == <<M_ReservedCase, M_CaseCollision>>
+
 -----------------------------------------------------------------------------
 (* parametric family: a container with two properties, each of one of 32 kinds -- 1024 meta-models *)
 KindTypes == << TBool, TInt, TFloat, TStr, TBytes, TEnum("Color"), TCls("Item"), TCls("Thing"),
